@@ -81,8 +81,8 @@ SIX = ['kern', 'ekern', 'bkern', 'bekern', 'akern', 'aekern']
 class C15:
     PROPERTY = 'C15'
     TIERS = {
-        'quick': {'runs': 5600, 'wall_cap_s': 300, 'chunk': 40},
-        'thorough': {'runs': 160000, 'wall_cap_s': 1500, 'chunk': 50},
+        'quick': {'runs': 5600, 'wall_cap_s': 300, 'chunk': 40, 'opt_leg_runs': 300},
+        'thorough': {'runs': 160000, 'wall_cap_s': 1500, 'chunk': 50, 'opt_leg_runs': 1200},
     }
     RULE = ('a pool of <=5 document handles driven by <=8 seeded operations: import, to_transposed (all 40 interval names x 2 '
             'directions, biased to extreme intervals that become unspellable midway), transpose a result back, transpose a result '
